@@ -350,6 +350,7 @@ func runC16(e *Engine, r *Report) {
 	// shrinking the recorded snapshot is crash-safe only after the on-disk state machine synced (decided by C08's rule set)
 	borrow(e, r, "C08", "MPT-sync-before-shrink")
 	ruleRawMkdir(e, r)
+	ruleRefusalNeverSuccess(e, r)
 	ruleSnapshotDeleteOlder(e, r)
 	ruleTempDirNamePattern(e, r)
 }
